@@ -4,3 +4,4 @@ CONSTANTS
 INVARIANT Conforms
 INVARIANT MarksAgree
 INVARIANT NumberingIsMtimeOrder
+INVARIANT Witnessed
